@@ -23,6 +23,8 @@ pub struct Scenario {
     pub prefix: &'static str,
     pub stabilise_at_ms: u64,
     pub horizon_windows: u64,
+    /// consensus messages for later slots of a window overtake earlier ones by this much per slot
+    pub reorder_ms: u64,
 }
 
 #[derive(Debug)]
@@ -51,6 +53,7 @@ pub fn run_scenario(sc: &Scenario, total_ms: u64, seed: u64) -> Result<RunResult
                         g.delay[a][b] = Duration::from_millis(if a == b { 0 } else if slow { sc.slow_ms } else { 1 });
                     }
                 }
+                g.a2a_reorder_ms = sc.reorder_ms;
                 match sc.prefix {
                     "isolate-one" => {
                         let victim = (0..n).find(|i| !sc.crashed.contains(i)).unwrap();
@@ -119,7 +122,7 @@ pub fn run_scenario(sc: &Scenario, total_ms: u64, seed: u64) -> Result<RunResult
 }
 
 fn describe(sc: &Scenario) -> Value {
-    json!({"stakes": sc.stakes, "crashed": sc.crashed, "slow_out": sc.slow_out, "slow_in": sc.slow_in, "slow_ms": sc.slow_ms, "prefix": sc.prefix, "stabilise_at_ms": sc.stabilise_at_ms})
+    json!({"stakes": sc.stakes, "reorder_ms": sc.reorder_ms, "crashed": sc.crashed, "slow_out": sc.slow_out, "slow_in": sc.slow_in, "slow_ms": sc.slow_ms, "prefix": sc.prefix, "stabilise_at_ms": sc.stabilise_at_ms})
 }
 
 /// Judges one run against the C02 oracle.
@@ -128,7 +131,7 @@ fn judge(report: &Report, sc: &Scenario, r: &RunResult, total_ms: u64) {
     let total: u64 = sc.stakes.iter().sum();
     let crashed_stake: u64 = sc.crashed.iter().map(|i| sc.stakes[*i]).sum();
     let replay = describe(sc);
-    let class = format!("n{n}:crashed{}:{}:slow{}", sc.crashed.len(), sc.prefix, sc.slow_ms);
+    let class = format!("n{n}:crashed{}:{}:slow{}:reorder{}", sc.crashed.len(), sc.prefix, sc.slow_ms, sc.reorder_ms);
     if !r.panics.is_empty() {
         report.violation(format!("C02:node-task-panicked:{class}"), format!("{:?}", r.panics.first()), replay.clone());
     }
@@ -198,6 +201,7 @@ pub fn scenarios(tier: Tier) -> Vec<Scenario> {
         prefix: "none",
         stabilise_at_ms: 0,
         horizon_windows: 4,
+        reorder_ms: 0,
     };
     for n in tier.pick(vec![4usize, 6], vec![4, 5, 6]) {
         let stakes = vec![10u64; n];
@@ -218,6 +222,15 @@ pub fn scenarios(tier: Tier) -> Vec<Scenario> {
                 s.crashed = cs.clone();
                 s.prefix = prefix;
                 s.stabilise_at_ms = if prefix == "none" { 0 } else { 3200 };
+                v.push(s);
+            }
+        }
+        // within-window reordering of consensus messages (later slots overtake earlier ones)
+        for cs in &crash_sets {
+            for r in [10u64, 40] {
+                let mut s = base(stakes.clone());
+                s.crashed = cs.clone();
+                s.reorder_ms = r;
                 v.push(s);
             }
         }
@@ -242,7 +255,7 @@ pub fn scenarios(tier: Tier) -> Vec<Scenario> {
 pub fn run(tier: Tier) -> i32 {
     let report = Report::new("C02", tier, "fault_enumeration");
     let scs = scenarios(tier);
-    let total_ms = 16_000u64;
+    let total_ms = tier.pick(12_000u64, 16_000);
     let samples = std::sync::Mutex::new(Samples::new(5));
     let inconclusive = std::sync::Mutex::new(Vec::<Value>::new());
     let evals = std::sync::atomic::AtomicUsize::new(0);
@@ -260,7 +273,7 @@ pub fn run(tier: Tier) -> i32 {
     let cov = json!({
         "evaluations": evals.load(std::sync::atomic::Ordering::Relaxed),
         "distinct_nontrivial": scs.len(),
-        "rule": "n real Alpenglow nodes (block producer, Rotor, blockstore, repair, Votor timers) in virtual time; menu: every crash set below 20% of stake (thorough: also below 40% for the slow path) x pre-stabilisation prefix {none, one node isolated, partition 2|n-2, all traffic held} released at 3.2 s, and per-node in/out link speeds {1 ms, slow}; each scenario is one 16-second virtual run judged on the certificates seen on the wire and on finalized_slot() of every live node; every scenario is distinct and non-trivial",
+        "rule": "n real Alpenglow nodes (block producer, Rotor, blockstore, repair, Votor timers) in virtual time; menu: every crash set below 20% of stake (thorough: also below 40% for the slow path) x pre-stabilisation prefix {none, one node isolated, partition 2|n-2, all traffic held} released at 3.2 s, and per-node in/out link speeds {1 ms, slow}, and within-window reordering of consensus messages (later slots overtake earlier ones by 10/40 ms per slot); each scenario is one 12-second (thorough: 16-second) virtual run judged on the certificates seen on the wire and on finalized_slot() of every live node; every scenario is distinct and non-trivial",
         "exhaustive": true,
         "virtual_ms_per_run": total_ms,
         "inconclusive": *inconclusive.lock().unwrap(),
